@@ -180,6 +180,9 @@ def run(prop, tier, seed, replay=None):
                 cases.append(dict(id=len(cases), doc=['<mutant of>'] + doc, text=t, opts=PROFILES[p]['opts'], ml=PROFILES[p]['ml']))
                 nmut += 1
         c.extra['truncation_deletion_cases'] = nmut
+    if prop == 'C07' and not replay:
+        from checks import args
+        args.phase(c, tier)
     recs = c.drive(cases, drive_free)
     if not replay:
         # CLI: a sample of the inputs, biased to those ending in a pinned construct
